@@ -37,7 +37,8 @@ type Config struct {
 // of retries.
 // https://github.com/grpc/proposal/blob/master/A6-client-retries.md#exponential-backoff
 func (bc *Config) Backoff(attempt uint) time.Duration {
-	if attempt == 0 {
+	if attempt == 0 || bc.BaseDelay == 0 {
+		// A zero base delay stays zero; multiplying it by an overflowed power would give NaN.
 		return bc.BaseDelay
 	}
 	backoff, max := float64(bc.BaseDelay), float64(bc.MaxDelay)
